@@ -153,7 +153,8 @@ def check(ctx):
         "exhaustive": True, "exhaustive_histories": nexh,
         "traces_validated_against_impl": len(cases) if have_model else 0,
         "correspondence_disagreements": ndis, "oracle_failures_total": len(failures),
-        "samples": [{"history": cases[i], "impl": impl[i][:200]} for i in (len(corpus) + 5000, len(cases) - 1) if i < len(cases)],
+        "samples": [{"history": cases[i][:300], "impl": impl[i][:200]} for i in (len(corpus) + 5000, nexh + 17, len(cases) - 1) if i < len(cases)],
+        "population_histories": [{"operations": c.count(";") + 1, "bytes": len(c)} for c in cases if len(c) >= 200000],
     })
     return C.finish(ctx, trusted=C.TRUSTED_COMMON + [
         "hashbrown::HashMap is modelled as an association list with replace-on-insert; std Vec as List"],
